@@ -98,8 +98,8 @@ def load_known(prop):
     if os.path.exists(path):
         for line in open(path):
             line = line.strip()
-            if not line or line.startswith("#"):
-                continue
+            if not line or line.startswith(("#", "fixed:")):
+                continue     # 'fixed: property=<id> <commit> <what failed>' lines document repaired defects and suppress nothing
             k = json.loads(line)
             if k.get("property") == prop:
                 out.append(k)
